@@ -302,7 +302,17 @@ def wsgi_app(environ, start_response):
     CUR["env"].append((env, inp))
     body_len = sum(len(x) for x in spec["writes"]) + sum(len(x) for x in spec["chunks"])
     hdrs = [(n, str(body_len) if v == LEN else v) for n, v in spec["headers"]]
-    write = start_response(spec["status"], hdrs)
+    if spec.get("restart"):
+        # PEP 3333 error handling: the application had already called start_response, failed while producing the body
+        # and replaces status and headers (nothing has been sent yet) by calling it again with exc_info
+        start_response("200 OK", [("Content-Type", "text/x-discarded"), ("X-Discarded", "1")])
+        try:
+            raise RuntimeError("body production failed")
+        except RuntimeError:
+            import sys
+            write = start_response(spec["status"], hdrs, sys.exc_info())
+    else:
+        write = start_response(spec["status"], hdrs)
     for wchunk in spec["writes"]:
         write(wchunk)
     chunks = list(spec["chunks"])
@@ -476,6 +486,8 @@ class C47(Check):
                     if code in (204, 304) and (B[bi][0] or any(B[bi][1])):
                         continue
                     self.eval_case({"layer": "resp", "tier": tier, "resp": [si, ai, bi, ri]}, st)
+                    if bi == 0 or ai == 0:
+                        self.eval_case({"layer": "resp", "tier": tier, "resp": [si, ai, bi, ri], "restart": True}, st)
 
     # ------------------------------------------------------------------
     def materialize(self, case):
@@ -510,6 +522,8 @@ class C47(Check):
     def eval_case(self, case, st):
         from mc.httph import read_responses
         reqs, infos, specs = self.materialize(case)
+        if case.get("restart"):
+            specs = [dict(sp, restart=True) for sp in specs]
         res = execute(reqs, specs)
         st.ev()
         layer = case["layer"]
